@@ -416,6 +416,34 @@ func Run(p Plan) (v hk.Verdict) {
 				}
 			}
 
+			// operations that retrieve the key internally detect the alteration too (and so cannot re-seal it)
+			var liveIDs []string
+			for id := range slots {
+				liveIDs = append(liveIDs, id)
+			}
+
+			sort.Strings(liveIDs)
+
+			for _, sid2 := range liveIDs {
+				if onlyTarget && sid2 != target {
+					continue
+				}
+
+				priv := keys[slots[sid2]].priv
+
+				if err := tampered.AddKeySlot("zz-added", keys[0].pub, sid2, priv); err == nil {
+					v.Failf("step %d (%s, target %s): AddKeySlot authorised by slot %s succeeded on the altered storage: tampering not detected", i, what, target, sid2)
+
+					return v
+				}
+
+				if err := tampered.DeleteKeySlot(sid2, priv); err == nil {
+					v.Failf("step %d (%s, target %s): DeleteKeySlot(%s) succeeded on the altered storage: tampering not detected (and re-sealed)", i, what, target, sid2)
+
+					return v
+				}
+			}
+
 			// never-added / outsider slots must not unlock anything either
 			for _, extra := range []string{"zz-injected", "zz-outsider"} {
 				for ki := range keys {
